@@ -259,7 +259,7 @@ func displayName(key string) string {
 func (e *Engine) newExec(fn *ssa.Function, quiet bool) *FnExec {
 	fe := &FnExec{eng: e, script: &Script{}, regs: map[ssa.Value]Val{}, heapSort: map[string]string{}, quiet: quiet,
 		sentinel: map[*ssa.Global]int{}, globals: map[*ssa.Global]Val{}, tids: map[string]int{}, unknown: map[string]int{},
-		used: map[string]bool{}, abstracted: map[string]int{}}
+		used: map[string]bool{}, abstracted: map[string]int{}, phiEdges: map[*ssa.BasicBlock][]phiEdge{}}
 	if fn.Pkg != nil {
 		fe.pkg = fn.Pkg.Pkg
 	} else if fn.Parent() != nil {
@@ -446,7 +446,9 @@ func (e *Engine) verifyFunc(key string, timeoutS, seed int, allSolvers bool, sol
 		res.Vacuity = "no-return"
 	}
 	t1 := time.Now()
-	fe.script.solveAll(timeoutS, seed, allSolvers)
+	if se := fe.script.solveAll(timeoutS, seed, allSolvers); se != "" {
+		res.Errs = append(res.Errs, "solver error: "+se)
+	}
 	res.SolveMS = time.Since(t1).Milliseconds()
 	return res
 }
